@@ -872,7 +872,7 @@ func preloadGopFile(p *gogen.Package, ctx *blockCtx, file string, f *ast.File, c
 							if chk.chkRedecl(ctx, name.Name, spec.Type.Pos()) {
 								continue
 							}
-							fld := types.NewField(spec.Type.Pos(), pkg, name.Name, typ, true)
+							fld := types.NewField(name.Pos(), pkg, name.Name, typ, true)
 							if rec != nil {
 								rec.Def(name, fld)
 							}
